@@ -44,6 +44,7 @@ def plan(tier, seed):
         for c in CFGS['quick']:
             shards.append(dict(kind='bfs', time_opts=c, part=0, nparts=1, d0=1, depth=PREFIX_DEPTH[tier], budget=BUDGET[tier],
                                defer=bool((i + len(c)) % 2 == 0) or tier == 'thorough', start=[pre]))
+    shards.append(dict(kind='race', time_opts=CFGS['quick'][0], n=12 if tier == 'quick' else 120, seed=seed))
     n, length = WALKS[tier]
     nshard = 2 if tier == 'quick' else 16
     for i in range(nshard):
@@ -79,6 +80,41 @@ def continuation(r, stats):
     stats['recoveries'] += 1
 
 
+def run_race(sh, res):
+    """An operator's send request and an operator's stop in the same instant, from two REST worker threads: the send view has
+    answered and handed its write to the reactor thread (callFromThread) when the stop view runs; the reactor makes the write
+    afterwards.  Closes complete late (the write buffer drains after the reactor has run the queued call, as in Twisted)."""
+    from vlib.world import World
+    from vlib import wire
+    rng = random.Random(sh['seed'])
+    V = {}
+    sends = [('send/update', S.REST_SENDS['R_UPD'][2]), ('send/bin_update', {'binary_data': S.UPD_ROUTE.hex()}), ('send/route-refresh', {'afi': 1, 'safi': 1})]
+    for i in range(sh['n']):
+        path_, body_ = sends[i % len(sends)]
+        w = World(time_opts=sh['time_opts'], defer_close=True)
+        tr = w.establish()
+        if w.state_direct() != 'ESTABLISHED':
+            continue
+        res['evaluations'] += 1
+        res['distinct'].append('race|%s|%d' % (path_, i))
+        w.lazy = True
+        code, jb = w.rest('POST', path_, json_body=body_)
+        n0 = len(tr.written)
+        code2, jb2 = w.stop()
+        w.lazy = False
+        w.settle()
+        after = [wire.summarize(f) for f in wire.frames_of_writes(tr.written[n0:])]
+        res['counters']['races_run'] = res['counters'].get('races_run', 0) + 1
+        late = [f for f in after if f[0] != 3]
+        if isinstance(jb2, dict) and jb2.get('status') is True and late:
+            V.setdefault(('write-after-stop', path_), dict(
+                kind='write-after-stop', features=['race:send-queued-before-stop', 'rule:' + path_],
+                detail='%s answered %s, manual-stop in the same instant answered %s; written after the stop: %s' % (path_, str(jb)[:60], str(jb2)[:40], after),
+                replay=dict(kind='race', time_opts=sh['time_opts'], path=path_, body=body_)))
+    res['violations'] = list(V.values())
+    return res
+
+
 def run_shard(sh):
     res = dict(evaluations=0, counters={}, maxima={}, sets={}, distinct=[], samples=[], violations=[])
     cfg = dict(time_opts=sh['time_opts'])
@@ -99,6 +135,8 @@ def run_shard(sh):
         for v in r.collect():
             viol.setdefault((v['kind'], tuple(v['features'])), v)
 
+    if sh['kind'] == 'race':
+        return run_race(sh, res)
     if sh['kind'] == 'bfs':
         def on_state(r, seq):
             continuation(r, stats)
@@ -127,7 +165,7 @@ def run_shard(sh):
                 break
             r = S.random_walk(cfg, [StopMonitor], alpha, rng, sh['length'], multi=True,
                               weights={'TICK': 6, 'ACCEPT': 3, 'REFUSE': 2, 'STOP': 1.5, 'START': 1.0},
-                              rest=('Q_UPD', 'Q_NOTI') if i % 3 == 0 else ())
+                              rest=('Q_UPD', 'Q_NOTI') if i % 3 == 0 else (), lazy=0.3 if i % 2 else 0.0)
             if not r.monitors[0].stopped:
                 r.step('STOP')
             continuation(r, stats)
@@ -161,6 +199,9 @@ def floors(m, tier):
 
 
 def replay(rep):
+    if rep.get('kind') == 'race':
+        res = dict(evaluations=0, counters={}, distinct=[], violations=[])
+        return run_race(dict(time_opts=rep['time_opts'], n=3, seed=1), res)['violations']
     r = S.run_seq(rep['cfg'], rep['events'], [StopMonitor], fuzz=rep.get('fuzz'))
     stats = dict(stopped_states=0, starts_continued=0, recoveries=0)
     if 'ADV300' not in rep['events']:
